@@ -403,18 +403,21 @@ func (e *Encoder) Encode(d interface{}) error {
 			"NewEncoder. Try EncodeFields instead.")
 	}
 	v := reflect.Indirect(reflect.ValueOf(d))
-	for i, j := range e.fieldIndices {
-		if err := e.Writer.WriteAttribute(e.row, i, v.Field(j).Interface()); err != nil {
-			return fmt.Errorf("shp: %v", err)
-		}
-	}
 
+	// The shape has to be written first: writing it appends the (empty)
+	// attribute record that the attribute values are then written into.
 	shape, err := geom2Shp(v.Field(e.geomIndex).Interface().(geom.Geom))
 	if err != nil {
 		return err
 	}
 	e.Writer.Write(shape)
+	row := e.row
 	e.row++
+	for i, j := range e.fieldIndices {
+		if err := e.Writer.WriteAttribute(row, i, v.Field(j).Interface()); err != nil {
+			return fmt.Errorf("shp: %v", err)
+		}
+	}
 	return nil
 }
 
